@@ -2,6 +2,7 @@ SPECIFICATION Spec
 CONSTANT Part = "scale"
 CONSTANT Deviation = "AddM"
 CONSTANT MaxDepth = 3
+CONSTANT Rebounds = FALSE
 CONSTANT Export = FALSE
 INVARIANT C05_Linear
 CHECK_DEADLOCK FALSE
